@@ -167,6 +167,42 @@ def parse_var_keywords(test_str: str) -> tuple[list[str], str]:
     return keywords, test_str
 
 
+def get_parameter_value(text: str) -> str | None:
+    """Get the initialisation expression of the first entity in ``text``,
+    e.g. ``selected_real_kind(15, 307)`` for
+    ``dp = selected_real_kind(15, 307), sp = kind(1.0) ! comment``
+
+    The value ends at the first comma outside parentheses, brackets and
+    character literals, or at the start of a comment
+    """
+    start = None
+    depth = 0
+    quote = None
+    i = 0
+    for i, char in enumerate(text):
+        if quote is not None:
+            if char == quote:
+                quote = None
+        elif char in ("'", '"'):
+            quote = char
+        elif char in "([":
+            depth += 1
+        elif char in ")]":
+            depth -= 1
+        elif char == "!":
+            break
+        elif depth == 0:
+            if char == ",":
+                break
+            if (start is None) and (char == "=") and (text[i + 1 : i + 2] != ">"):
+                start = i + 1
+    else:
+        i = len(text)
+    if start is None:
+        return None
+    return " ".join(text[start:i].replace("&", " ").split())
+
+
 def read_var_def(line: str, var_type: str | None = None, fun_only: bool = False):
     """Attempt to read variable definition line"""
 
@@ -1467,9 +1503,8 @@ class FortranFile:
                         #  the value in hover
                         if new_var.is_parameter():
                             _, col = find_word_in_line(line, name)
-                            match = FRegex.PARAMETER_VAL.match(line[col:])
-                            if match:
-                                var = " ".join(match.group(1).strip().split())
+                            var = get_parameter_value(line[col:])
+                            if var is not None:
                                 new_var.set_parameter_val(var)
 
                         # Check if the "variable" is external and if so cycle
